@@ -196,6 +196,14 @@ sink_fields += [
     # a configuration-made custom type with a package path and no suffixes entry of its own: the default suffix is the name
     # without / and . ; suffixes entries for the tails of the name are other names and do not apply
     fld("CfgCustomPath", "string"),
+    # ... and with underscores in package and type name: the default suffix keeps them (only / and . are removed)
+    fld("CfgCustomUnd", "string"),
+    # two fields whose names differ only in letter case (distinct Go names, distinct attribute names): sorting is by the exact name
+    fld("SubKind", "string", comment=" ends with a non-breaking space\u00a0\n second line\u3000\n\u2003third line\u2028\n\u0085fourth\f\n\vfifth\n"),
+    fld("Subkind", "int64"),
+    # casts to predeclared types: plain `int` / `uint` are never qualified with the struct package
+    fld("PlainInt", "int64", castType="int"),
+    fld("PlainUints", "uint64", castType="uint", card="repeated"),
     fld("json_named", "string", jsonTag="renamed,omitempty"),
     fld("JsonDash", "string", jsonTag="-"),
     # tag names are used as they are written (no snake-casing): lowerCamel, a dash, a space and an upper-case letter
@@ -253,12 +261,15 @@ case = {
         "sensitiveFields": ["Inner.Secret", "Wrap.S.InnerMap.Leaves.Data", "Sink.CustomB", "DepLabel.Value"],
         "nameOverrides": [{"k": "Sink.InnerP.Name", "v": "inner_p_name"}, {"k": "Leaf.Flag", "v": "leaf_flag_o"},
                           {"k": "Wrap.List.LeavesV.Str", "v": "deep_str"}, {"k": "Sink.EmbNum", "v": "emb_num_o"},
-                          {"k": "DepLabel.Key", "v": "id"}],
+                          {"k": "DepLabel.Key", "v": "id"},
+                          # decoys: a key qualified with the package name is another key and addresses nothing
+                          {"k": "spkg.Sink.InnerP.Name", "v": "decoy_qualified"}, {"k": "tpkg.Leaf.Flag", "v": "decoy_qualified2"}],
         "validators": [{"k": "Sink.SString", "v": ["verifharness/tfx.UseMockValidator()"]},
                        {"k": "Wrap.S.InnerV.LeafListV.Num", "v": ["verifharness/tfx.UseMockValidator()", "verifharness/tfx.UseOtherValidator()"]},
                        {"k": "Sink.CustomB", "v": ["verifharness/tfx.UseMockValidator()"]},
                        # both key forms for one field with different lists: the full path is the more specific entry
                        {"k": "Leaf.Str", "v": ["verifharness/tfx.UseMockValidator()"]},
+                       {"k": "spkg.Sink.SString", "v": ["verifharness/tfx.UseOtherValidator()"]},
                        {"k": "Wrap.S.Inners.LeafList.Str", "v": ["verifharness/tfx.UseOtherValidator()", "verifharness/tfx.UseMockValidator()"]}],
         "planModifiers": [{"k": "Sink.SInt64", "v": ["github.com/hashicorp/terraform-plugin-framework/tfsdk.RequiresReplace()"]},
                           {"k": "Inner.Name", "v": ["github.com/hashicorp/terraform-plugin-framework/tfsdk.RequiresReplace()",
@@ -270,7 +281,8 @@ case = {
                                 {"k": "github.com/hashicorp/terraform-plugin-framework", "v": "example.com/decoy2"},
                                 {"k": "verifharness", "v": "example.com/decoy3"}],
         "customTypes": [{"k": "Sink.CfgCustom", "v": "CfgCustomC"}, {"k": "Sink.CfgCustomExpr", "v": "[]CfgCustomD"},
-                        {"k": "Sink.CfgCustomPath", "v": "example.com/lib/wrappers.CfgCustomP"}],
+                        {"k": "Sink.CfgCustomPath", "v": "example.com/lib/wrappers.CfgCustomP"},
+                        {"k": "Sink.CfgCustomUnd", "v": "example.com/lib/api_types.Cfg_CustomU"}],
         "suffixes": [{"k": "CfgCustomC", "v": "SfxCfgCustomC"}, {"k": "StrCustomB", "v": "SfxStrCustomB"},
                      {"k": "[]CfgCustomD", "v": "SfxCfgCustomDList"}, {"k": "CfgCustomD", "v": "SfxWrongElement"},
                      {"k": "CfgCustomP", "v": "SfxTailOne"}, {"k": "wrappers.CfgCustomP", "v": "SfxTailTwo"}],
@@ -291,7 +303,8 @@ meta = {"Roots": ["Sink", "Wrap", "Inner", "Empty"], "Injected": ["injected_deep
                   {"Suffix": "SfxStrCustomB", "GoType": "[]StrCustomB", "Repeated": True},
                   {"Suffix": "SfxCfgCustomC", "GoType": "string", "Repeated": False},
                   {"Suffix": "SfxCfgCustomDList", "GoType": "string", "Repeated": False},
-                  {"Suffix": "examplecomlibwrappersCfgCustomP", "GoType": "string", "Repeated": False}],
+                  {"Suffix": "examplecomlibwrappersCfgCustomP", "GoType": "string", "Repeated": False},
+                  {"Suffix": "examplecomlibapi_typesCfg_CustomU", "GoType": "string", "Repeated": False}],
         "CustomTys": ["StrCustomA", "StrCustomB"]}
 
 os.makedirs(f'{V}/corpus', exist_ok=True)
